@@ -213,6 +213,31 @@ pub fn stages(ctx: &Ctx, strict: bool) {
     ctx.prop_stage("skrifa-havoc", Isolation::Procs, ctx.n(10_000, 60_000), strat, |c, s| test_sk(&ix, c, s, strict));
     // (3) IFT client
     ctx.prop_stage("ift", Isolation::Procs, ctx.n(30_000, 300_000), ift_strategy, |c, s| test_ift(&ix, c, s, strict));
+    // replays of inputs found by the coverage-guided target c02_ift
+    ctx.index_stage("ift-raw", Isolation::Threads, 0, |_| RawIft { raw_hex: String::new() }, |c: &RawIft, s| {
+        let h = c.raw_hex.strip_prefix("hex:").unwrap_or(&c.raw_hex);
+        let d: Vec<u8> = (0..h.len() / 2).filter_map(|i| u8::from_str_radix(h.get(2 * i..2 * i + 2)?, 16).ok()).collect();
+        if d.len() < 2 {
+            return Ok(());
+        }
+        let mut chunks: Vec<&[u8]> = vec![];
+        let mut rest = &d[2..];
+        while rest.len() >= 2 && chunks.len() < 6 {
+            let n = (u16::from_be_bytes([rest[0], rest[1]]) as usize).min(rest.len() - 2);
+            chunks.push(&rest[2..2 + n]);
+            rest = &rest[2 + n..];
+        }
+        match guard::catch(|| iftdrive::drive_raw(d[0], d[1], &chunks)) {
+            Ok(_) => Ok(()),
+            Err(p) => {
+                if strict && !p.is_overflow_or_assert() {
+                    s.class("non_overflow_panic_ignored(strict)");
+                    return Ok(());
+                }
+                Err(Fail::from_panic(&p))
+            }
+        }
+    });
     // (4) shared-brotli decoder
     ctx.prop_stage("brotli", Isolation::Procs, ctx.n(20_000, 200_000), brotli_strategy, |c, s| {
         let r = guard::catch(|| iftdrive::drive_brotli(&c.stream, c.dict.as_deref(), c.max_len as usize));
@@ -232,4 +257,9 @@ pub fn stages(ctx: &Ctx, strict: bool) {
             }
         }
     });
+}
+
+#[derive(Clone, Debug, Serialize, Deserialize)]
+pub struct RawIft {
+    pub raw_hex: String,
 }
